@@ -33,6 +33,6 @@ if [ "${SKIP_DEMO:-0}" != 1 ]; then
 fi
 for P in "$@"; do
   echo "-- check $P against mutant"
-  (cd /verif && VERIF_REPO_OVERRIDE=$W ./check $P 2>&1 | grep -E "^(VIOLATION|KNOWN-FINDING|HARNESS-ERROR|  signature|C[0-9]+ tier)" | cut -c1-260 | head -12; echo "check exit ${PIPESTATUS[0]}")
+  (cd /verif && VERIF_REPO_OVERRIDE=$W ./check $P 2>&1 | grep -E "^(VIOLATION|KNOWN-FINDING|HARNESS-ERROR|  signature|C[0-9]+ tier)" | cut -c1-260 | head -12; echo "check exit ${PIPESTATUS[0]}"; python3 /verif/tools/sigdiff.py $P /verif/out/$P-alt-$(python3 -c "import hashlib;print(hashlib.sha1('$W'.encode()).hexdigest()[:8])"))
 done
 rm -f /tmp/st/demo_clean.$$ /tmp/st/demo_mut.$$
